@@ -194,7 +194,13 @@ def random_chunks(rng, n, max_chunks=3):
 # ---------------------------------------------------------------- c2a
 
 def gen_c2a(rng):
-    return dict(kind='c2a', cps=gen_cps(rng, drop_auto=rng.random() < 0.15), as_array=rng.random() < 0.5)
+    cps = gen_cps(rng, drop_auto=rng.random() < 0.15)
+    dup = rng.random() < 0.05
+    if dup:
+        autos = [p for p in cps if p[0] == p[1]]
+        if autos:
+            cps.insert(rng.randint(0, len(cps)), list(rng.choice(autos)))
+    return dict(kind='c2a', cps=cps, as_array=rng.random() < 0.5)
 
 
 def lines_c2a(c):
@@ -236,9 +242,13 @@ def judge_c2a(ctx, c, rep):
     if sorted(ai) != [k for k, (x, y) in enumerate(cps) if x == y]:
         out.append(f'auto_indices {ai} is not the set of autocorrelation positions')
     mrep = ';'.join(enc_nats(v) if v else '' for v in got)
+    dup = len({(a, b) for a, b in cps if a == b}) != len([1 for a, b in cps if a == b])
+    if dup:
+        ctx.tag('c2a-duplicate-auto(mirror-only)')
     if rep != mrep:
         ctx.advise(f'mirror model differs from implementation on c2a {c["cps"]}: {rep} vs {mrep}')
-        if not out:
+        if not out and not dup:
+            # without duplicates the documented meaning determines the three arrays uniquely
             out.append(f'corrprod_to_autocorr returned {mrep}, model {rep}')
     return out, True
 
@@ -311,7 +321,9 @@ def judge_kern(ctx, c, rep_q, rep_f):
     res_fam, res_other = [], []
     for k in (bad.tolist() if bad is not None else []):
         a1, a2, ww = (float(v) for v in tr[k])
-        if not exact_domain(a1, a2, ww):
+        both_regular = all(math.isfinite(v) and v != 0 for v in (a1, a2))
+        if not exact_domain(ww) or (both_regular and not exact_domain(a1, a2)):
+            # the value depends on binary32 overflow/underflow, which the exact model does not have
             ctx.tag('kern-outside-exact-domain')
             continue
         (res_fam if fam[k] == '1' and out[k] == 0 else res_other).append(k)
